@@ -83,6 +83,15 @@ int main() {
         if (WIFSIGNALED(st)) printf("%lld ABORT %d\n", lam, WTERMSIG(st));
         else if (WEXITSTATUS(st) != 0) printf("%lld EXIT %d\n", lam, WEXITSTATUS(st));
     }
+    // the same rejected requests by a caller that does not use the returned pointer (a bare call): still an abort - the declaration in the public header must
+    // not allow the caller's compiler to drop the call.  "B lam ABORT 6" expected
+    for (ll lam : { (ll) 0, (ll) -1, (ll) -5, (ll) 129, (ll) 200, (ll) 300, (ll) INT_MIN, (ll) INT_MAX }) {
+        fflush(stdout);
+        pid_t pid = fork();
+        if (pid == 0) { if (!freopen("/dev/null", "w", stderr)) {} new_default_gate_bootstrapping_parameters((int32_t) lam); _exit(0); }
+        int st = 0; waitpid(pid, &st, 0);
+        if (WIFSIGNALED(st)) printf("B %lld ABORT %d\n", lam, WTERMSIG(st)); else printf("B %lld EXIT %d\n", lam, WEXITSTATUS(st));
+    }
     std::vector<ll> up, down, mix;
     for (ll l = 1; l <= 128; l++) { up.push_back(l); down.push_back(129 - l); }
     ll m[] = {80, 128, 80, 81, 1, 128, 100, 50, 81, 80};
